@@ -136,7 +136,7 @@ def run_one(mode, rng, run_index, want_sample=False):
             "nontrivial": bool(mode.nontrivial(w)),
             "final_state": finals,
             "states": len(w.state_hashes),
-            "digest": sig + finals,
+            "digest": sig + finals + str(len(w.state_hashes)) + (viol.inv if viol is not None else ""),
         }
         if w.unraisable:
             res["probes"]["unraisable_in_del"] = len(w.unraisable)
